@@ -12,9 +12,43 @@ LEVEL = "model_checking"
 MONS = ["C12"]
 
 
+def work_pairs(task):
+    """Runs of DIFFERENT problems back to back in one process, started from the same initial labelling
+    (equal member lists, different data / estimator): nothing may be remembered from the previous run."""
+    from vlib import lib
+    from vlib.ctx import Acc, stopped
+    lib.load("nojit")
+    (names, seed, inits, limit) = task
+    acc = Acc()
+    ds = [ml.get_driver(n, seed) for n in names]
+    for init in inits:
+        if stopped():
+            break
+        for d in ds:
+            rec = ml.real_run(d, init, limit, (), entry="fit")
+            acc.n += 1
+            if rec.error is not None:
+                acc.count("runs_raised", type(rec.error).__name__)
+                continue
+            acc.nontrivial += 1
+            for (msg, sig) in ml.MONITORS["C12"](rec):
+                acc.fail({"kind": "pairs", "drivers": list(names), "driver": d.name, "seed": seed, "init": list(init),
+                          "limit": limit}, f"driver {d.name} right after the other driver(s) {list(names)}: " + msg, sig)
+    acc.sample({"kind": "pairs", "drivers": list(names), "inits": len(inits), "limit": limit})
+    return acc.result()
+
+
 def run(ctx):
     from vlib import lib
     lib.load("nojit")
+    # same (T', K), different data and estimator: k2a (unbiased), k2m1 (biased, other data), k2tiny (biased, 1e-4 scale)
+    trio = ("k2a", "k2m1", "k2tiny")
+    d0 = ml.get_driver(trio[0], ctx.seed)
+    pinits = ml.all_labellings(d0.Tp, d0.K)
+    if not ctx.thorough:
+        pinits = pinits[::3]
+    for r in ctx.pmap(work_pairs, [(trio, ctx.seed, pinits[lo:lo + 6], 3) for lo in range(0, len(pinits), 6)]):
+        ctx.take(r)
     L = 20
     if ctx.thorough:
         menu = [("k2a", [1, L], 2), ("k2b", [L], 1), ("k2m1", [1, L], 2), ("k2mat", [1, L], 1),
@@ -25,10 +59,15 @@ def run(ctx):
                 ("k2huge", [2], 0), ("k2eps2", [2], 0), ("k2off", [2], 0)]
     ps = ml.e2_plans(ctx, menu, MONS)
     ml.explore(ctx, ps)
-    ml.e2_describe(ctx, ps, "Monitor: mean/covariance of every cluster in every round vs two-pass fsum "
+    ml.e2_describe(ctx, ps, "Also: three problems with equal (T',K) but different data and estimator (k2a, k2m1, "
+                   "k2tiny) run back to back in one process from the same initial labelling (every 3rd; thorough "
+                   "every), limit 3. Monitor: mean/covariance of every cluster in every round vs two-pass fsum "
                    "reference over exactly the windows labelled k (tolerance 1e-10 x spread^2 + 256 eps |x| spread: what a mean-subtracting estimator can lose); optimiser "
                    "arguments and stored MRF vs the optimiser's own answer.")
 
 
 def replay(ctx, case):
+    if case.get("kind") == "pairs":
+        ctx.take(work_pairs((tuple(case["drivers"]), case["seed"], [tuple(case["init"])], case["limit"])))
+        return
     ml.replay_case(ctx, case, MONS, conform=True)
